@@ -170,6 +170,14 @@ func parseFile(path string, pre env) (*fileConsts, error) {
 							fc.lists[n.Name] = l
 							fc.listOrd = append(fc.listOrd, n.Name)
 						}
+					case *ast.CallExpr: // []byte("literal") conversions (taproot tag strings)
+						if _, isArr := v.Fun.(*ast.ArrayType); isArr && len(v.Args) == 1 {
+							if bl, ok := v.Args[0].(*ast.BasicLit); ok && bl.Kind == token.STRING {
+								s, _ := strconv.Unquote(bl.Value)
+								fc.strs[n.Name] = s
+								fc.strOrd = append(fc.strOrd, n.Name)
+							}
+						}
 					case *ast.BasicLit:
 						if v.Kind == token.STRING {
 							s, _ := strconv.Unquote(v.Value)
@@ -273,6 +281,7 @@ func main() {
 		{src: "psetv2/global.go", dst: "PsetV2GlobalConsts.v", all: true},
 		{src: "psetv2/input.go", dst: "PsetV2InputConsts.v", all: true},
 		{src: "psetv2/output.go", dst: "PsetV2OutputConsts.v", all: true},
+		{src: "psetv2/pset.go", dst: "PsetV2Consts.v", all: true},
 		{src: "pset/pset.go", dst: "PsetV0Consts.v", all: true},
 		{src: "taproot/taproot.go", dst: "TaprootConsts.v", all: true},
 		{src: "transaction/issuance.go", dst: "IssuanceConsts.v", all: true},
